@@ -271,6 +271,27 @@ def run_core(rep, pid, tier, profile, variants, n_quick, n_thorough, salt, repla
         if st == 'ok':
           key = 'rejected-but-another-conjunct-order-compiles'
           break
+    if metamorphic and kind == 'variant-changes-outcome' and 'RuleCompile' in detail.split(' (')[0] and \
+        any(m in detail for m in ('no way to assign', 'circular dependency', 'found no way')):
+      # one side is rejected by the variable elimination / unnesting order: is it the known order dependence?  then
+      # the rejected spelling compiles under some other order of the conjuncts
+      from props import variants as V
+      rejected_is_variant = detail.split(' (')[0].replace(' ', '').endswith('vsRuleCompile')
+      printer = dict(variants)[vname if rejected_is_variant else 'plain']
+      pr = random.Random(s + '/reorder-meta')
+      for _ in range(10):
+        try:
+          tv = printer(V.permute_prog(prog, pr), random.Random(s + '/variant'))
+        except Exception:  # pylint: disable=broad-except
+          tv = None
+        if not tv:
+          continue
+        ttext = tv[0] if isinstance(tv, tuple) else tv
+        rename = tv[1] if isinstance(tv, tuple) and isinstance(tv[1], dict) else {}
+        st, _a, _b = R.logica_run.run_pred(ttext, rename.get(pred, pred), time_limit=15.0)
+        if st == 'ok':
+          key = 'rejected-but-another-conjunct-order-compiles'
+          break
     if key in seen_keys and reported >= 3:
       continue
     seen_keys.add(key)
